@@ -56,8 +56,13 @@ class FakeDatagramTransport(asyncio.DatagramTransport):
     # -- asyncio API ---------------------------------------------------------
     def get_extra_info(self, name, default=None):
         if name == "peername":
+            # as socket.getpeername(): (host, port) for AF_INET, (host, port, flowinfo, scope_id) for AF_INET6
+            if self.remote_addr and ":" in str(self.remote_addr[0]):
+                return tuple(self.remote_addr[:2]) + (0, 0)
             return self.remote_addr or default
         if name == "sockname":
+            if self.remote_addr and ":" in str(self.remote_addr[0]):
+                return ("::1", 40000, 0, 0)
             return self.local_addr or ("127.0.0.1", 40000)
         return default
 
@@ -140,8 +145,10 @@ class VLoop(asyncio.SelectorEventLoop):
         protocol = protocol_factory()
         tr = FakeDatagramTransport(self, protocol, remote_addr, local_addr, None)
         self.transports.append(tr)
+        # as asyncio's selector datagram transport: connection_made runs as a loop callback (an exception in it goes to the
+        # loop's exception handler, not to the caller of create_datagram_endpoint)
+        self.call_soon(protocol.connection_made, tr)
         await asyncio.sleep(0)
-        protocol.connection_made(tr)
         return tr, protocol
 
     def _play(self, tr, request):
@@ -155,7 +162,7 @@ class VLoop(asyncio.SelectorEventLoop):
                 self.reply = fn
         s = tr.script
         kind = s["kind"]
-        addr = tr.remote_addr or ("192.0.2.1", 161)
+        addr = tr.get_extra_info("peername") or ("192.0.2.1", 161)
         if kind in ("reply", "late", "empty"):
             data = b"" if (kind == "empty" or s.get("empty")) else self.reply
             self.call_later(s["d"], tr.net_datagram, data, addr)
